@@ -250,7 +250,7 @@ def fileop_cases(draw):
     elif op == 'amalgamate':
         nc = draw(st.integers(1, 6))
         dtype = draw(st.sampled_from(VALUE_DTYPES))
-        k = draw(st.integers(1, 3))
+        k = draw(st.sampled_from([1, 2, 2, 3, 3, 4]))
         spec['sources'] = []
         for _ in range(k):
             f = draw(h5ad_files(n_cols=nc, dtype=dtype, layouts=('anndata', 'anndata', 'small_chunks')))
